@@ -50,16 +50,38 @@ def norm_fn(fn):
     return fn[-90:] if fn else "?"
 
 
+def split_frame(ln):
+    """Return (function, path) of one ASan/UBSan/TSan stack line, or None."""
+    m = re.match(r"^\s*#\d+\s+(.*)$", ln)
+    if not m:
+        return None
+    rest = m.group(1).strip()
+    rest = re.sub(r"^0x[0-9a-f]+\s+(?:in\s+)?", "", rest)      # ASan: "#0 0xaddr in fn file:line"
+    rest = re.sub(r"\s+\([^()\s]+\+0x[0-9a-f]+\)\s*$", "", rest)  # TSan: trailing "(module+0xoff)"
+    if " " in rest:
+        fn, path = rest.rsplit(" ", 1)
+    else:
+        fn, path = rest, ""
+    path = re.sub(r":\d+(?::\d+)?$", "", path)
+    return fn, path
+
+
+def is_frame(ln):
+    return split_frame(ln) is not None
+
+
 def sdk_frame(lines):
     """innermost frame that lies in /repo code; returns normalised function name."""
     first = None
     for ln in lines:
-        m = FRAME_RE.match(ln)
-        if not m:
+        fp = split_frame(ln)
+        if not fp:
             continue
-        fn, path = m.group(2), m.group(3)
+        fn, path = fp
         if first is None:
             first = norm_fn(fn)
+        if "/verif/" in path or "vf::" in fn:
+            continue
         if "/repo/" in path or "opentelemetry/" in path or "opentelemetry::" in fn:
             return norm_fn(fn)
     return first or "?"
@@ -131,7 +153,7 @@ def parse_tsan_logs(paths):
             continue
         blocks = txt.split("==================")
         for b in blocks:
-            m = re.search(r"WARNING: ThreadSanitizer: ([^\n(]+)", b)
+            m = re.search(r"(?:WARNING|ERROR): ThreadSanitizer: ([^\n(]+)", b)
             if not m:
                 continue
             kind = re.sub(r"\s+", "-", m.group(1).strip())
@@ -139,7 +161,7 @@ def parse_tsan_logs(paths):
             stacks = []
             cur = []
             for ln in b.splitlines():
-                if FRAME_RE.match(ln):
+                if is_frame(ln):
                     cur.append(ln)
                 else:
                     if cur:
@@ -206,7 +228,7 @@ def child_env(flavour, outdir, extra_env):
     env["ASAN_OPTIONS"] = ASAN_OPTIONS
     env["UBSAN_OPTIONS"] = UBSAN_OPTIONS
     env["LSAN_OPTIONS"] = LSAN_OPTIONS
-    env["TSAN_OPTIONS"] = ("halt_on_error=0:second_deadlock_stack=1:report_signal_unsafe=0:"
+    env["TSAN_OPTIONS"] = ("halt_on_error=0:second_deadlock_stack=1:report_signal_unsafe=0:report_thread_leaks=0:"
                            "exitcode=0:log_path=%s/tsan" % outdir)
     # the SDK reads OTEL_* variables; never inherit them from the caller
     for k in list(env):
@@ -272,10 +294,13 @@ def run_shard(prop, run, exe, tier, seed, cases, start, shard, nshards, outdir, 
                     res.hang_candidates.append(v)
                 else:
                     res.violations.append(v)
-        # TSan reports (never fatal; counted from the logs)
+        # TSan reports (never fatal; counted from the logs).  A deadly signal under TSan is a crash.
+        tsan_fatal = False
         for key, (cnt, ex) in parse_tsan_logs(glob.glob(os.path.join(outdir, "tsan.*"))).items():
             res.violations.append({"key": "%s/%s" % (prop, key), "detail": ex, "case": None, "seed": seed,
                                    "run": run["name"], "count": cnt})
+            if "ERROR: ThreadSanitizer" in ex:
+                tsan_fatal = True
         final = bool(result and result.get("final"))
         if result:
             merge_counts(res.counters, result.get("counters"))
@@ -325,6 +350,8 @@ def run_shard(prop, run, exe, tier, seed, cases, start, shard, nshards, outdir, 
             for kind, frame, ex in sans[:3]:
                 res.violations.append({"key": "%s/%s/%s" % (prop, kind, frame), "detail": ex, "case": prog,
                                        "seed": seed, "run": run["name"]})
+        elif tsan_fatal:
+            res.crashes += 1
         elif rc < 0 or rc in (134, 139):
             res.crashes += 1
             signame = signal.Signals(-rc).name if rc < 0 else str(rc)
